@@ -84,7 +84,7 @@ func ruleValidateBlock(c *Ctx) {
 			guardRe("validateBlock(state, block) = nil", `^nil\(state\.validateBlock\(state, block\)\)$`),
 			guardRe("evidence admissible (CheckEvidence = nil)", `^nil\(\w+\.evpool\.CheckEvidence\(block\.Evidence\.Evidence\)\)$`),
 		} {
-			c.Check(c.ge().ensures(g, gd, 0), "state.BlockExecutor.ValidateBlock ensures "+gd.Name, w.pos(g.Pos()), "nil only behind this check", "ValidateBlock can accept without: "+gd.Name)
+			c.Check(c.ge().ensures(g, gd, 2), "state.BlockExecutor.ValidateBlock ensures "+gd.Name, w.pos(g.Pos()), "nil only behind this check", "ValidateBlock can accept without: "+gd.Name)
 		}
 	}
 	// content hashes
@@ -97,7 +97,7 @@ func ruleValidateBlock(c *Ctx) {
 			guardRe("DataHash matches the block's txs", `^true\(bytes\.Equal\(b\.Header\.DataHash, b\.Data\.Hash\(\)\)\)$`),
 			guardRe("EvidenceHash matches the block's evidence", `^true\(bytes\.Equal\(b\.Header\.EvidenceHash, b\.Evidence\.Hash\(\)\)\)$`),
 		} {
-			c.Check(c.ge().ensures(g, gd, 0), "types.Block.ValidateBasic ensures "+gd.Name, w.pos(g.Pos()), "nil only behind this check", "Block.ValidateBasic can accept without: "+gd.Name)
+			c.Check(c.ge().ensures(g, gd, 2), "types.Block.ValidateBasic ensures "+gd.Name, w.pos(g.Pos()), "nil only behind this check", "Block.ValidateBasic can accept without: "+gd.Name)
 		}
 	}
 }
